@@ -42,7 +42,8 @@ Qed.
 
 Lemma m_cands_sorted e eids m l : m_cands e eids m = Some l -> StronglySorted N.lt l.
 Proof.
-  destruct m; cbn [m_cands]; intros H; inversion H; subst; try apply ns_elements_sorted. apply nm_keys_sorted.
+  destruct m; cbn [m_cands]; intros H; try (inversion H; subst; try apply ns_elements_sorted; apply nm_keys_sorted).
+  destruct (N.ltb bop 3); [|discriminate]. inversion H; subst. apply filter_sorted. apply ns_elements_sorted.
 Qed.
 
 Lemma first_cands_sorted e eids ms : forall l, first_cands e eids ms = Some l -> StronglySorted N.lt l.
@@ -87,9 +88,15 @@ Qed.
 (* the candidates of a positive member are exactly its indices *)
 Lemma m_cands_spec e eids m l i : m_cands e eids m = Some l -> (In i l <-> m_has e eids m i = true).
 Proof.
-  destruct m; cbn [m_cands m_has]; intros H; inversion H; subst; try apply in_ns_elements.
+  destruct m; cbn [m_cands m_has]; intros H; try (inversion H; subst; try apply in_ns_elements).
   - rewrite in_ns_elements. rewrite bits_of_mem. reflexivity.
   - apply in_nm_keys.
+  - destruct (N.ltb bop 3) eqn:E3; [|discriminate]. inversion H; subst. rewrite filter_In. split; [tauto|].
+    intros Hb. split; [|exact Hb]. rewrite in_ns_elements. fold (bits_of (a ++ b)). rewrite bits_of_mem, existsb_app.
+    unfold bitop_has in Hb. destruct (existsb (N.eqb i) a); destruct (existsb (N.eqb i) b); try reflexivity.
+    exfalso. apply N.ltb_lt in E3. cbn [andb orb xorb negb] in Hb.
+    destruct (N.eqb_spec bop 0); [discriminate|]. destruct (N.eqb_spec bop 1); [discriminate|].
+    destruct (N.eqb_spec bop 2); [discriminate|]. lia.
 Qed.
 
 Lemma first_cands_spec e eids ms : forall l i, first_cands e eids ms = Some l -> all_have e eids ms i = true -> In i l.
